@@ -660,6 +660,78 @@ pub fn junk_lnarsese(r: &mut Rng, pool: &[String]) -> lx::Narsese {
     }
 }
 
+/// numeric-looking strings `str::parse::<f64>` accepts or nearly accepts
+pub const NUM_EDGE: [&str; 24] = [
+    "NaN", "nan", "-NaN", "+nan", "inf", "-inf", "infinity", "1.5", "-0.1", "-0", "+1", "+0.5", "1e-3", "1E0", "1e400",
+    "1e-400", "0x1", "1_0", "", ".", "0.5.5", " 1", "１", "1.0000000000000002",
+];
+
+/// a vocabulary-consistent lexical value with ONE field replaced by junk (mostly-valid inputs reach the
+/// later folding stages; all-junk values die at the first field)
+pub fn nearly_valid_lnarsese(r: &mut Rng, v: &LexVocab, pool: &[String]) -> lx::Narsese {
+    let mut n = lnarsese(r, v, 3, 3);
+    // make sure there is something to mutate
+    if let lx::Narsese::Term(t) = &n {
+        if r.chance(2, 3) {
+            let s = lx::Sentence::new(t.clone(), r.pick(&v.puncts).clone(), lstamp(r, v), lnums(r, 3));
+            n = if r.chance(1, 2) { lx::Narsese::Sentence(s) } else { lx::Narsese::Task(lx::Task { budget: lnums(r, 4), sentence: s }) };
+        }
+    }
+    let edge = |r: &mut Rng| -> String {
+        if r.chance(3, 4) { r.pick(&NUM_EDGE).to_string() } else { junk_string(r, pool) }
+    };
+    fn mutate_strs(r: &mut Rng, xs: &mut Vec<String>, s: String) {
+        if xs.is_empty() || r.chance(1, 4) {
+            let at = r.below(xs.len() + 1);
+            xs.insert(at, s);
+        } else {
+            let at = r.below(xs.len());
+            xs[at] = s;
+        }
+    }
+    fn mutate_term(r: &mut Rng, t: &mut lx::Term, pool: &[String]) {
+        match t {
+            lx::Term::Atom { prefix, name } => {
+                if r.chance(1, 2) { *prefix = junk_string(r, pool) } else { *name = if r.chance(1, 2) { r.pick(&NUM_EDGE).to_string() } else { junk_string(r, pool) } }
+            }
+            lx::Term::Compound { connecter, terms } => match r.below(4) {
+                0 => *connecter = junk_string(r, pool),
+                1 => terms.clear(),
+                2 => { let at = r.below(terms.len() + 1); terms.insert(at, lx::Term::new_atom(junk_string(r, pool), "")) }
+                _ => if !terms.is_empty() { let i = r.below(terms.len()); mutate_term(r, &mut terms[i], pool) },
+            },
+            lx::Term::Set { left_bracket, terms, right_bracket } => match r.below(4) {
+                0 => *left_bracket = junk_string(r, pool),
+                1 => *right_bracket = junk_string(r, pool),
+                2 => terms.clear(),
+                _ => if !terms.is_empty() { let i = r.below(terms.len()); mutate_term(r, &mut terms[i], pool) },
+            },
+            lx::Term::Statement { copula, subject, predicate } => match r.below(3) {
+                0 => *copula = junk_string(r, pool),
+                1 => mutate_term(r, subject, pool),
+                _ => mutate_term(r, predicate, pool),
+            },
+        }
+    }
+    match &mut n {
+        lx::Narsese::Term(t) => mutate_term(r, t, pool),
+        lx::Narsese::Sentence(s) => match r.below(5) {
+            0 => mutate_term(r, &mut s.term, pool),
+            1 => s.punctuation = junk_string(r, pool),
+            2 => s.stamp = if r.chance(1, 2) { junk_string(r, pool) } else { format!("{}{}", r.pick_str(pool), r.pick_str(&NUM_EDGE)) },
+            _ => { let e = edge(r); mutate_strs(r, &mut s.truth, e) }
+        },
+        lx::Narsese::Task(k) => match r.below(7) {
+            0 => mutate_term(r, &mut k.sentence.term, pool),
+            1 => k.sentence.punctuation = junk_string(r, pool),
+            2 => k.sentence.stamp = junk_string(r, pool),
+            3 | 4 => { let e = edge(r); mutate_strs(r, &mut k.sentence.truth, e) }
+            _ => { let e = edge(r); mutate_strs(r, &mut k.budget, e) }
+        },
+    }
+    n
+}
+
 /// every keyword of an enum format (for keyword soup and junk pools)
 pub fn keywords(f: &EF<&str>) -> Vec<String> {
     let mut v: Vec<&str> = vec![
